@@ -39,7 +39,7 @@ class Spec(pipeprops.PropSpec):
     rule = ("C01's graphs plus adversarial mixes (a property whose values are IRIs and blank nodes with/without "
             "classes; thresholds between the reference and the plain kinds; nodes without outgoing triples; "
             "one-instance classes; language-tagged literals) x random accepted configurations (all 2^6 switch "
-            "assignments, OR on/off, target modes, caps) x {shex_graph ShExC, shex_graph SHACL, profile_graph}; "
+            "assignments, OR on/off, target modes, caps) x {shex_graph ShExC to string and file, shex_graph SHACL, profile_graph to string and file}; "
             "non-trivial = some class with >= 2 instances and some non-typing triple")
 
     def gen_cases(self, tier, rnd):
@@ -59,6 +59,10 @@ class Spec(pipeprops.PropSpec):
             runs.append((ts, shacl_cfg, "shacl"))
             if i % 4 == 0:
                 runs.append((ts, cfg, "profile"))
+            if i % 4 == 2:
+                runs.append((ts, cfg, "profile_file"))
+            if i % 8 == 1:
+                runs.append((ts, cfg, "shexc_file"))
             cases.append({"runs": runs, "meta": {}})
         return cases
 
